@@ -118,6 +118,9 @@ func (f *Func) canon(e ast.Expr, depth int) string {
 	case *ast.SliceExpr:
 		return f.canon(x.X, depth) + "[" + f.canon(x.Low, depth) + ":" + f.canon(x.High, depth) + "]"
 	case *ast.BasicLit:
+		if tv, ok := info.Types[x]; ok && tv.Value != nil && x.Kind == token.INT {
+			return tv.Value.ExactString()
+		}
 		return x.Value
 	case *ast.FuncLit:
 		return "func{…}"
